@@ -57,7 +57,14 @@ THEOREMS = [
     "Jinns.LossTerms.dynTerm_perm",
     "Jinns.LossTerms.dynTerm_halves",
     "Jinns.LossTerms.holds_closed_form_eq_dynTerm",
+    "Jinns.LossTerms.holdsC03_model_ode",
+    "Jinns.LossTerms.holdsC03_model_statio",
+    "Jinns.LossTerms.holdsC03_model_nonstatio",
+    "Jinns.LossTerms.modelObs03ODE_reads_lossODE",
+    "Jinns.LossTerms.modelObs03Statio_reads_lossStatio",
+    "Jinns.LossTerms.modelObs03NonStatio_reads_lossNonStatio",
 ]
+LEAN_MODULES = ["JinnsProofs.C03", "JinnsProofs.C03C05Holds"]
 RULE = ("cases = (loss kind, dimension, network, equation with 1..3 residual components, weights, subset of "
         "configured terms, batch); non-trivial = the dynamic term is configured, non-zero, with per-point weighted "
         "squared residuals that are not all equal (so a wrong axis, a wrong mean or a permutation-sensitive "
